@@ -839,7 +839,9 @@ pub fn spec(id: &str, variant: &str, cancelable: bool, thorough: bool) -> Option
                 threads: (1, 3),
                 ops: (0, 28),
                 unique_traces: false,
-                templates: vec![(4, Template::Extract)],
+                // extraction inside a scope that is filled to its limit (local spans attempted
+                // there are omitted; the context is still that of the innermost recorded one)
+                templates: vec![(4, Template::Extract), (1, Template::ScopeFull)],
                 ..base.clone().set(&[
                     (K::CtxOfSpan, 10),
                     (K::CtxOfLocal, 12),
